@@ -78,7 +78,7 @@ def api():
     return env
 
 
-def declaration(item, ret, spec):
+def declaration(item, ret, spec, body='{ unimplemented!() }'):
     """real signature + contract, body replaced by unimplemented!()"""
     item.sig(ret=ret, spec=spec)
     text, segs = item.render()
@@ -88,7 +88,7 @@ def declaration(item, ret, spec):
         if origin[0] == 'orig' and origin[1] <= item.body_open < origin[1] + (b - a):
             cut = a + (item.body_open - origin[1])
     assert cut is not None
-    return '    #[verifier::external_body]\n    ' + text[:cut] + '{ unimplemented!() }\n'
+    return '    #[verifier::external_body]\n    ' + text[:cut] + body + '\n'
 
 
 def emit(A, repo, canary=False):
